@@ -69,7 +69,9 @@ def _check_values_are_feasible(study: Study, values: Sequence[float]) -> str | N
         # return `value` is assumed to be ignored on failure so we can set it to any value.
         try:
             float_v = float(v)
-        except (ValueError, TypeError, OverflowError):
+        except Exception:
+            # Whatever a user-defined ``__float__`` raises means the same as the built-in conversion
+            # errors: the value is not float-convertible and the trial has to fail.
             return f"The value {repr(v)} could not be cast to float"
 
         if math.isnan(float_v):
